@@ -34,7 +34,7 @@ def expect_property(p):
     lifted = {}
     for v in p["values"]:
         for tag, text in v["attrs"]:
-            if tag == "#comment":
+            if tag == "#comment" or text is None:
                 continue
             if tag not in LIFTED:
                 tokens.append(("unsupported-value-element", [tag]))
@@ -50,7 +50,7 @@ def expect_property(p):
             lifted[target] = text
     attrs = {}
     for k, v in p["attrs"].items():
-        if k in PROP_KEEP:
+        if k in PROP_KEEP and v is not None:
             attrs[PROP_KEEP[k]] = v
     for k in ("definition", "reference"):
         # an attribute the Property itself carries wins over one lifted from a value
@@ -87,7 +87,8 @@ def expect_section(s):
         secs.append(e)
         tokens += t
     exp = {"name": s["name"], "type": s["type"], "id": valid_id(s.get("id")),
-           "attrs": {k: v for k, v in s["attrs"].items() if k in SEC_KEEP}, "properties": props, "sections": secs}
+           "attrs": {k: v for k, v in s["attrs"].items() if k in SEC_KEEP and v is not None}, "properties": props,
+           "sections": secs}
     return exp, tokens
 
 
@@ -102,7 +103,7 @@ def expect_document(d):
         if tag == "#comment":
             continue
         tokens.append(("unsupported-document-element", [tag]))
-    return {"attrs": {k: v for k, v in d["attrs"].items() if k in DOC_KEEP}, "id": valid_id(d.get("id")),
+    return {"attrs": {k: v for k, v in d["attrs"].items() if k in DOC_KEEP and v is not None}, "id": valid_id(d.get("id")),
             "sections": secs}, tokens
 
 
